@@ -217,8 +217,6 @@ Qed.
 
 (** * Decimal parsing *)
 (** Horner value of a digit string. *)
-Fixpoint horner (s : str) (acc : N) : N :=
-  match s with [] => acc | c :: r => horner r (10 * acc + (c - 48)) end.
 
 Lemma digit_val_spec c : digit_val c = if is_digit c then Some (c - 48) else None.
 Proof. reflexivity. Qed.
